@@ -194,6 +194,29 @@ def main(tier, rep):
     rnd = random.Random(common.seed())
     universe, steps = (3, 4) if tier == "quick" else (4, 4)
     traces = []
+    # the bookkeeping invariant is inductive and, from EVERY state that satisfies it, a reconfiguration establishes the contract
+    for vpc in (True, False):
+        cfg_any = f"""SPECIFICATION SpecAny
+CONSTANTS
+  Universe = {3 if tier == "quick" else 4}
+  MaxSteps = 2
+  Export = FALSE
+  Vpc = {'TRUE' if vpc else 'FALSE'}
+  Fixed = TRUE
+VIEW view
+INVARIANT MonitorOK
+INVARIANT SysInv
+INVARIANT EmptyRotationOnlyByFaults
+CHECK_DEADLOCK FALSE
+"""
+        r = tlc.run("AwsDiscovery", cfg_text=cfg_any, cfg="AwsAny_gen", workers=16, timeout=3000)
+        if r.error:
+            raise common.MachineryError(r.error)
+        if not r.ok:
+            rep.violation("C19/model/any-state/" + ",".join(r.invariants_violated),
+                          "from some state satisfying the bookkeeping invariant the as-coded reconfiguration breaks the contract or the invariant",
+                          tlc.first_error_trace(r))
+        rep.add("states_inductive_check", r.distinct)
     for vpc in (True, False):
         cfg = f"""SPECIFICATION Spec
 CONSTANTS
